@@ -1837,13 +1837,13 @@ impl<'a, E: quiver_core::effects::Effect> Compiler<'a, E> {
         )?;
 
         // Apply narrowing to the matched value's provenance if the pattern narrows the type.
-        // This is done here on the success path - the type has been narrowed by the pattern.
-        // Note: result_type is the narrowed type from analyze_pattern.
+        // This is done here on the success path - the type has been narrowed by the pattern, so
+        // the value is in the matched type (not in the nil that `result_type` adds for "no match").
         if !self.is_never(result_type) && !self.is_nil(result_type) {
             apply_narrowing(
                 &mut self.scopes,
                 &value_provenance,
-                result_type,
+                matched_type,
                 self.program,
             );
         }
